@@ -3,11 +3,12 @@
    keyfield <data>                                  -> <keybytes> | err
    query <data> <n>                                 -> <message> <signature> <remainder> | err
         (the slices the GENERATED _verify_signature hands to the signature check when the key's signature length is n)
-   recv <overlay> <data> <parse> <verify> <decode> <net>
+   recv <overlay> <data> <parse> <verify> <decode> <net> <netaddr>
         parse  = none | <n>:<canonical key hex>      answer of the real key parser on the model's key field
         verify = 0|1                                 answer of the real verifier on the model's (message, signature)
         decode = bits, one per decode attempt        answer of the real payload decoder on the model's remainder
         net    = - | <canonical key hex>             verified_by_public_key_bin.get(key field)
+        netaddr= - | <canonical key hex>             key of get_verified_by_address(source address)
      -> dropped-prefix | dropped-short | no-handler | other <kind> | stuck
       | called <peer key> <wd 0|1> <payload bytes> | called-addr <wd 0|1> | rejected <stage>
    pack <prefix> <msgid> <pub> <body> <signature>   -> <datagram>     (Gen.ezrPack with a signer that returns <signature>)
@@ -43,7 +44,8 @@ def parseAnswer (s : String) : Option (Option (Nat × Bytes)) :=
 
 def bitAt (s : String) (i : Nat) : Bool := (s.toList.getD i '0') == '1'
 
-def mkEnv (data : Bytes) (parse : Option (Nat × Bytes)) (verify : Bool) (dec : Bool) (net : Option Bytes) : Env Bytes :=
+def mkEnv (data : Bytes) (parse : Option (Nat × Bytes)) (verify : Bool) (dec : Bool) (net : Option Bytes)
+    (netAddr : Option Bytes) : Env Bytes :=
   let kf := keyField Gen.strictVarlen data
   { S := { parse := fun b => if some b == kf then parse.map (·.2) else none,
            sigLen := fun _ => (parse.map (·.1)).getD 0,
@@ -51,15 +53,16 @@ def mkEnv (data : Bytes) (parse : Option (Nat × Bytes)) (verify : Bool) (dec : 
     strict := Gen.strictVarlen,
     verifySig := Gen.verifySignature,
     decode := fun buf off => if dec then some (buf.drop off) else none,
-    net := fun b => if some b == kf then net else none }
+    net := fun b => if some b == kf then net else none,
+    netAddr := netAddr }
 
 def recv (ovName : String) (data : Bytes) (parse : Option (Nat × Bytes)) (verify : Bool) (dec : String)
-    (net : Option Bytes) : String :=
+    (net netAddr : Option Bytes) : String :=
   match findOverlay Gen.overlays ovName with
   | none => "unknown-overlay"
   | some o =>
-    let E0 := mkEnv data parse verify (bitAt dec 0) net
-    let E1 := mkEnv data parse verify (bitAt dec 1) net
+    let E0 := mkEnv data parse verify (bitAt dec 0) net netAddr
+    let E1 := mkEnv data parse verify (bitAt dec 1) net netAddr
     match onPacket genProgs o (fun _ => E0) Gen.prefixLen Gen.msgIdOffset data with
     | .droppedPrefix => "dropped-prefix"
     | .droppedShort => "dropped-short"
@@ -88,11 +91,12 @@ def step (_ : Unit) (toks : List String) : Unit × String :=
           let (m, s, r) := Gen.verifyQuery n kb d
           s!"{Proto.toHex m} {Proto.toHex s} {Proto.toHex r}"
         | none => "err")
-    | ["recv", ov, d, p, v, dec, net] => do
+    | ["recv", ov, d, p, v, dec, net, na] => do
       let d ← Proto.ofHex? d
       let p ← parseAnswer p
       let net ← if net == "-" then some none else (Proto.ofHex? net).map some
-      pure (recv ov d p (v == "1") dec net)
+      let na ← if na == "-" then some none else (Proto.ofHex? na).map some
+      pure (recv ov d p (v == "1") dec net na)
     | ["pack", pfx, m, pub, body, sig] => do
       let pfx ← Proto.ofHex? pfx
       let m ← m.toNat?
